@@ -426,6 +426,10 @@ package genetics
 // Parents: the shape the crossovers rely on (trait ids consecutive, every trait reference within the trait list -- "trait ids consecutive as in every shipped genome").
 //@ pred traitInRange(t *neat.Trait, g *Genome) = t == nil || (g.Traits[0].Id <= t.Id && t.Id < g.Traits[0].Id + len(g.Traits))
 //@ pred parentShape(p *Genome, g *Genome) = p != nil && nonNilGenes(p.Genes) && geneLinksWF(p.Genes) && sortedLT(p.Genes) && nonNilNodes(p.Nodes) && nonNilTraits(p.Traits) && len(p.ControlGenes) == 0 && (forall i :: 0 <= i && i < len(p.Nodes) ==> traitInRange(p.Nodes[i].Trait, g)) && (forall i :: 0 <= i && i < len(p.Genes) ==> traitInRange(p.Genes[i].Link.Trait, g) && traitInRange(p.Genes[i].Link.InNode.Trait, g) && traitInRange(p.Genes[i].Link.OutNode.Trait, g))
+// Two genes stand for the same link (what Link.IsEqualGenetically compares); "consistent innovation numbers" of the property's
+// quantifier: within and across the parents the same link never carries two different innovation numbers.
+//@ pred sameLink(a *Gene, b *Gene) = a.Link.InNode.Id == b.Link.InNode.Id && a.Link.OutNode.Id == b.Link.OutNode.Id && a.Link.IsRecurrent == b.Link.IsRecurrent
+//@ pred linksConsistent(p *Genome, q *Genome) = forall i, j :: 0 <= i && i < len(p.Genes) && 0 <= j && j < len(q.Genes) && sameLink(p.Genes[i], q.Genes[j]) ==> p.Genes[i].InnovationNum == q.Genes[j].InnovationNum
 //@ func newGenome
 //@   props C04
 //@   requires nonNilNodes(nodes)
@@ -441,49 +445,120 @@ package genetics
 // Ghost witness for [provenance]: for the child's k-th gene, v = gSrc[k] names the parent gene it was copied from:
 // g.Genes[v] when v >= 0, og.Genes[-v-1] when v < 0. Assigned where the copy is made, so the witness is the code's own choice.
 //@ ghost gSrc (Array Int Int)
+// Further witnesses of the alignment, all written at the same place: gOth[k] = index, in the parent the k-th child gene was NOT
+// copied from, of the gene with the same innovation number (-1: that parent has none); gKidA[a] / gKidB[b] = position in the
+// child of the gene inherited for g.Genes[a] / og.Genes[b].
+//@ ghost gOth (Array Int Int)
+//@ ghost gKidA (Array Int Int)
+//@ ghost gKidB (Array Int Int)
+//@ pred srcIsA(i1 int, chosen *Gene, g *Genome) = i1 > 0 && chosen == g.Genes[i1-1]
+//@ pred better1(f1 float64, f2 float64, g *Genome, og *Genome) = f1 > f2 || (f1 == f2 && len(g.Genes) < len(og.Genes))
 //@ func (*Genome).mateMultipoint
 //@   props C04
 //@   mode nosafety
-//@   assert [a9new] (i1 < size1 ==> result.InnovationNum < g.Genes[i1].InnovationNum) && (i2 < size2 ==> result.InnovationNum < og.Genes[i2].InnovationNum) @ after 1 NewGeneCopy
-//@   assert [a9old] forall k :: 0 <= k && k < len(newGenes) ==> (i1 < size1 ==> newGenes[k].InnovationNum < g.Genes[i1].InnovationNum) && (i2 < size2 ==> newGenes[k].InnovationNum < og.Genes[i2].InnovationNum) @ after 1 NewGeneCopy
+//@   assert [cut.bounds] 0 <= i1 && i1 <= size1 && 0 <= i2 && i2 <= size2 && size1 == len(g.Genes) && size2 == len(og.Genes) && len(newTraits) == len(g.Traits) && childNodesMap != nil && fresh(childNodesMap) @ after 1 NewGeneCopy
+//@   assert [cut.traits] forall i :: 0 <= i && i < len(newTraits) ==> newTraits[i] != nil && newTraits[i].Id == g.Traits[i].Id && (forall k :: 0 <= k && k < len(g.Traits[i].Params) ==> newTraits[i].Params[k] == (g.Traits[i].Params[k] + og.Traits[i].Params[k]) / 2.0) @ after 1 NewGeneCopy
+//@   assert [cut.nodes] nonNilNodes(newNodes) && sortedNodesLE(newNodes) && fresh(newNodes) && fresh(newGenes) @ after 1 NewGeneCopy
+//@   assert [cut.genesWF] forall k :: 0 <= k && k < len(newGenes) ==> newGenes[k] != nil && fresh(newGenes[k]) && newGenes[k].Link != nil && fresh(newGenes[k].Link) && newGenes[k].Link.InNode != nil && newGenes[k].Link.OutNode != nil @ after 1 NewGeneCopy
+//@   assert [cut.srcRange] forall k :: 0 <= k && k < len(newGenes) ==> (sel(gSrc, k) >= 0 ==> sel(gSrc, k) < i1) && (sel(gSrc, k) < 0 ==> 0 - sel(gSrc, k) <= i2) @ after 1 NewGeneCopy
+//@   assert [cut.fromA] forall k :: 0 <= k && k < len(newGenes) && sel(gSrc, k) >= 0 ==> fromGene(newGenes[k], g.Genes[sel(gSrc, k)]) @ after 1 NewGeneCopy
+//@   assert [cut.fromB] forall k :: 0 <= k && k < len(newGenes) && sel(gSrc, k) < 0 ==> fromGene(newGenes[k], og.Genes[0 - sel(gSrc, k) - 1]) @ after 1 NewGeneCopy
+//@   assert [cut.sorted] sortedLT(newGenes) @ after 1 NewGeneCopy
+//@   assert [cut.better] p1better == better1(fitness1, fitness2, g, og) @ after 1 NewGeneCopy
+//@   assert [cut.kidA.fit] forall a :: 0 <= a && a < i1 && p1better && g.Genes[a].InnovationNum < chosenGene.InnovationNum ==> 0 <= sel(gKidA, a) && sel(gKidA, a) < len(newGenes) && newGenes[sel(gKidA, a)].InnovationNum == g.Genes[a].InnovationNum @ after 1 NewGeneCopy
+//@   assert [cut.kidB.fit] forall b :: 0 <= b && b < i2 && !p1better && og.Genes[b].InnovationNum < chosenGene.InnovationNum ==> 0 <= sel(gKidB, b) && sel(gKidB, b) < len(newGenes) && newGenes[sel(gKidB, b)].InnovationNum == og.Genes[b].InnovationNum @ after 1 NewGeneCopy
+//@   assert [cut.kidA.both] forall a, b :: 0 <= a && a < i1 && 0 <= b && b < size2 && og.Genes[b].InnovationNum == g.Genes[a].InnovationNum && g.Genes[a].InnovationNum < chosenGene.InnovationNum ==> 0 <= sel(gKidA, a) && sel(gKidA, a) < len(newGenes) && newGenes[sel(gKidA, a)].InnovationNum == g.Genes[a].InnovationNum @ after 1 NewGeneCopy
+//@   assert [cut.mergeA] forall a :: 0 <= a && a < i1 ==> (i2 < size2 ==> g.Genes[a].InnovationNum < og.Genes[i2].InnovationNum) @ after 1 NewGeneCopy
+//@   assert [cut.mergeB] forall b :: 0 <= b && b < i2 ==> (i1 < size1 ==> og.Genes[b].InnovationNum < g.Genes[i1].InnovationNum) @ after 1 NewGeneCopy
+//@   assert [cut.othRangeA] forall k :: 0 <= k && k < len(newGenes) && sel(gSrc, k) >= 0 && sel(gOth, k) >= 0 ==> sel(gOth, k) < i2 && og.Genes[sel(gOth, k)].InnovationNum == newGenes[k].InnovationNum @ after 1 NewGeneCopy
+//@   assert [cut.othRangeB] forall k :: 0 <= k && k < len(newGenes) && sel(gSrc, k) < 0 && sel(gOth, k) >= 0 ==> sel(gOth, k) < i1 && g.Genes[sel(gOth, k)].InnovationNum == newGenes[k].InnovationNum @ after 1 NewGeneCopy
+//@   assert [cut.othNoneA] forall k, b :: 0 <= k && k < len(newGenes) && sel(gSrc, k) >= 0 && sel(gOth, k) < 0 && 0 <= b && b < size2 ==> og.Genes[b].InnovationNum != newGenes[k].InnovationNum @ after 1 NewGeneCopy
+//@   assert [cut.othNoneB] forall k, a :: 0 <= k && k < len(newGenes) && sel(gSrc, k) < 0 && sel(gOth, k) < 0 && 0 <= a && a < size1 ==> g.Genes[a].InnovationNum != newGenes[k].InnovationNum @ after 1 NewGeneCopy
+//@   assert [cut.onlyFitter] forall k :: 0 <= k && k < len(newGenes) ==> (sel(gSrc, k) >= 0 && !p1better ==> sel(gOth, k) >= 0) && (sel(gSrc, k) < 0 && p1better ==> sel(gOth, k) >= 0) @ after 1 NewGeneCopy
+//@   assert [cut.enSingleA] forall k :: 0 <= k && k < len(newGenes) && sel(gOth, k) < 0 && sel(gSrc, k) >= 0 ==> newGenes[k].IsEnabled == g.Genes[sel(gSrc, k)].IsEnabled @ after 1 NewGeneCopy
+//@   assert [cut.enSingleB] forall k :: 0 <= k && k < len(newGenes) && sel(gOth, k) < 0 && sel(gSrc, k) < 0 ==> newGenes[k].IsEnabled == og.Genes[0 - sel(gSrc, k) - 1].IsEnabled @ after 1 NewGeneCopy
+//@   assert [cut.enBothA] forall k :: 0 <= k && k < len(newGenes) && sel(gOth, k) >= 0 && sel(gSrc, k) >= 0 && g.Genes[sel(gSrc, k)].IsEnabled && og.Genes[sel(gOth, k)].IsEnabled ==> newGenes[k].IsEnabled @ after 1 NewGeneCopy
+//@   assert [cut.enBothB] forall k :: 0 <= k && k < len(newGenes) && sel(gOth, k) >= 0 && sel(gSrc, k) < 0 && og.Genes[0 - sel(gSrc, k) - 1].IsEnabled && g.Genes[sel(gOth, k)].IsEnabled ==> newGenes[k].IsEnabled @ after 1 NewGeneCopy
+//@   assert [cut.belowNext] forall k :: 0 <= k && k < len(newGenes) ==> (i1 < size1 ==> newGenes[k].InnovationNum < g.Genes[i1].InnovationNum) && (i2 < size2 ==> newGenes[k].InnovationNum < og.Genes[i2].InnovationNum) @ after 1 NewGeneCopy
+//@   assert [cut.enabledFrame] forall x *Gene :: wasAllocated(x) ==> x.IsEnabled == old(x.IsEnabled) @ after 1 NewGeneCopy
+//@   assert [cut.nodeMemFrame] forall b :: wasAllocated(b) ==> Mem[*network.NNode][b] == old(Mem[*network.NNode][b]) @ after 1 NewGeneCopy
+//@   assert [cut.geneMemFrame] forall b :: wasAllocated(b) ==> Mem[*Gene][b] == old(Mem[*Gene][b]) @ after 1 NewGeneCopy
+//@   assert [cut.new] result != nil && fresh(result) && result.Link != nil && fresh(result.Link) && result.Link.InNode != nil && result.Link.OutNode != nil && fromGene(result, chosenGene) && result.IsEnabled == chosenGene.IsEnabled @ after 1 NewGeneCopy
+//@   assert [cut.distinct] forall k :: 0 <= k && k < len(newGenes) ==> newGenes[k] != result && newGenes[k].Link != result.Link @ after 1 NewGeneCopy
+//@   assert [cut.chosen] chosenGene != nil && ((i1 > 0 && chosenGene == g.Genes[i1-1]) || (i2 > 0 && chosenGene == og.Genes[i2-1])) @ after 1 NewGeneCopy
+//@   assert [cut.chosenBelowNext] (i1 < size1 ==> chosenGene.InnovationNum < g.Genes[i1].InnovationNum) && (i2 < size2 ==> chosenGene.InnovationNum < og.Genes[i2].InnovationNum) @ after 1 NewGeneCopy
+//@   assert [cut.childBelowChosen] forall k :: 0 <= k && k < len(newGenes) ==> newGenes[k].InnovationNum < chosenGene.InnovationNum @ after 1 NewGeneCopy
+//@   assert [cut.aBelow] forall a :: 0 <= a && a < i1 ==> g.Genes[a].InnovationNum <= chosenGene.InnovationNum @ after 1 NewGeneCopy
+//@   assert [cut.bBelow] forall b :: 0 <= b && b < i2 ==> og.Genes[b].InnovationNum <= chosenGene.InnovationNum @ after 1 NewGeneCopy
+//@   assert [cut.parents] nonNilGenes(g.Genes) && nonNilGenes(og.Genes) && sortedLT(g.Genes) && sortedLT(og.Genes) @ after 1 NewGeneCopy
+//@   assert [cut.mono] forall b :: wasAllocated(b) ==> allocated(b) @ after 1 NewGeneCopy
+//@   assert [cut.noneB] srcIsA(i1, chosenGene, g) && !(i2 > 0 && og.Genes[i2-1].InnovationNum == chosenGene.InnovationNum) ==> (forall b :: 0 <= b && b < size2 ==> og.Genes[b].InnovationNum != chosenGene.InnovationNum) @ after 1 NewGeneCopy
+//@   assert [cut.noneA] !srcIsA(i1, chosenGene, g) && !(i1 > 0 && g.Genes[i1-1].InnovationNum == chosenGene.InnovationNum) ==> (forall a :: 0 <= a && a < size1 ==> g.Genes[a].InnovationNum != chosenGene.InnovationNum) @ after 1 NewGeneCopy
+//@   assert [cut.worse] (srcIsA(i1, chosenGene, g) && !p1better ==> i2 > 0 && og.Genes[i2-1].InnovationNum == chosenGene.InnovationNum) && (!srcIsA(i1, chosenGene, g) && p1better ==> i1 > 0 && g.Genes[i1-1].InnovationNum == chosenGene.InnovationNum) @ after 1 NewGeneCopy
+//@   assert [cut.disable] disable ==> i1 > 0 && i2 > 0 && g.Genes[i1-1].InnovationNum == og.Genes[i2-1].InnovationNum && og.Genes[i2-1].InnovationNum == chosenGene.InnovationNum && (!g.Genes[i1-1].IsEnabled || !og.Genes[i2-1].IsEnabled) @ after 1 NewGeneCopy
 //@   set gSrc = upd(gSrc, len(newGenes), (i1 > 0 && chosenGene == g.Genes[i1-1]) ? i1-1 : 0-i2) @ after 1 NewGeneCopy
+//@   set gOth = upd(gOth, len(newGenes), srcIsA(i1, chosenGene, g) ? ((i2 > 0 && og.Genes[i2-1].InnovationNum == chosenGene.InnovationNum) ? i2-1 : 0-1) : ((i1 > 0 && g.Genes[i1-1].InnovationNum == chosenGene.InnovationNum) ? i1-1 : 0-1)) @ after 1 NewGeneCopy
+//@   set gKidA = upd(gKidA, i1-1, (i1 > 0 && g.Genes[i1-1].InnovationNum == chosenGene.InnovationNum) ? len(newGenes) : sel(gKidA, i1-1)) @ after 1 NewGeneCopy
+//@   set gKidB = upd(gKidB, i2-1, (i2 > 0 && og.Genes[i2-1].InnovationNum == chosenGene.InnovationNum) ? len(newGenes) : sel(gKidB, i2-1)) @ after 1 NewGeneCopy
+//@   cut keep(cut.bounds, cut.nodes, cut.genesWF, cut.srcRange, cut.better, cut.new, cut.chosen, cut.distinct, cut.mono, cut.parents, cut.chosenBelowNext, cut.childBelowChosen, cut.aBelow, cut.bBelow, cut.geneMemFrame, cut.enabledFrame) @ after 1 NewGeneCopy
 //@   requires g != nil && og != nil && parentShape(g, g) && parentShape(og, g) && len(g.Traits) == len(og.Traits) && len(g.Traits) >= 1 && neat.ErrTraitsParametersCountMismatch != nil
 //@   requires forall i :: 0 <= i && i < len(g.Traits) ==> len(g.Traits[i].Params) == len(og.Traits[i].Params)
-//@   modifies ghost gSrc
+//@   requires [commonAncestry] linksConsistent(g, g) && linksConsistent(g, og) && linksConsistent(og, og)
+//@   modifies ghost gSrc, ghost gOth, ghost gKidA, ghost gKidB
 //@   ensures [ok] result1 == nil && result0 != nil && fresh(result0) && result0.Id == genomeId
 //@   ensures [traits] len(result0.Traits) == len(g.Traits) && (forall i :: 0 <= i && i < len(g.Traits) ==> result0.Traits[i].Id == g.Traits[i].Id && (forall k :: 0 <= k && k < len(g.Traits[i].Params) ==> result0.Traits[i].Params[k] == (g.Traits[i].Params[k] + og.Traits[i].Params[k]) / 2.0))
 //@   ensures [once] sortedLT(result0.Genes)
 //@   ensures [provenance] forall k :: 0 <= k && k < len(result0.Genes) ==> (exists a :: 0 <= a && a < len(g.Genes) && fromGene(result0.Genes[k], g.Genes[a])) || (exists b :: 0 <= b && b < len(og.Genes) && fromGene(result0.Genes[k], og.Genes[b]))
+//@   ensures [both] forall a, b :: 0 <= a && a < len(g.Genes) && 0 <= b && b < len(og.Genes) && g.Genes[a].InnovationNum == og.Genes[b].InnovationNum ==> (exists k :: 0 <= k && k < len(result0.Genes) && result0.Genes[k].InnovationNum == g.Genes[a].InnovationNum)
+//@   ensures [fitterA] better1(fitness1, fitness2, g, og) ==> (forall a :: 0 <= a && a < len(g.Genes) ==> (exists k :: 0 <= k && k < len(result0.Genes) && result0.Genes[k].InnovationNum == g.Genes[a].InnovationNum))
+//@   ensures [fitterB] !better1(fitness1, fitness2, g, og) ==> (forall b :: 0 <= b && b < len(og.Genes) ==> (exists k :: 0 <= k && k < len(result0.Genes) && result0.Genes[k].InnovationNum == og.Genes[b].InnovationNum))
+//@   ensures [onlyFitterA] !better1(fitness1, fitness2, g, og) ==> (forall k, a :: 0 <= k && k < len(result0.Genes) && 0 <= a && a < len(g.Genes) && result0.Genes[k].InnovationNum == g.Genes[a].InnovationNum ==> (exists b :: 0 <= b && b < len(og.Genes) && og.Genes[b].InnovationNum == g.Genes[a].InnovationNum))
+//@   ensures [onlyFitterB] better1(fitness1, fitness2, g, og) ==> (forall k, b :: 0 <= k && k < len(result0.Genes) && 0 <= b && b < len(og.Genes) && result0.Genes[k].InnovationNum == og.Genes[b].InnovationNum ==> (exists a :: 0 <= a && a < len(g.Genes) && g.Genes[a].InnovationNum == og.Genes[b].InnovationNum))
+//@   ensures [enabledSingleA] forall k, a :: 0 <= k && k < len(result0.Genes) && 0 <= a && a < len(g.Genes) && result0.Genes[k].InnovationNum == g.Genes[a].InnovationNum && (forall b :: 0 <= b && b < len(og.Genes) ==> og.Genes[b].InnovationNum != g.Genes[a].InnovationNum) ==> result0.Genes[k].IsEnabled == g.Genes[a].IsEnabled
+//@   ensures [enabledSingleB] forall k, b :: 0 <= k && k < len(result0.Genes) && 0 <= b && b < len(og.Genes) && result0.Genes[k].InnovationNum == og.Genes[b].InnovationNum && (forall a :: 0 <= a && a < len(g.Genes) ==> g.Genes[a].InnovationNum != og.Genes[b].InnovationNum) ==> result0.Genes[k].IsEnabled == og.Genes[b].IsEnabled
+//@   ensures [enabledBoth] forall k, a, b :: 0 <= k && k < len(result0.Genes) && 0 <= a && a < len(g.Genes) && 0 <= b && b < len(og.Genes) && result0.Genes[k].InnovationNum == g.Genes[a].InnovationNum && g.Genes[a].InnovationNum == og.Genes[b].InnovationNum && g.Genes[a].IsEnabled && og.Genes[b].IsEnabled ==> result0.Genes[k].IsEnabled
 //@   loop 1:
 //@     invariant -1 <= #idx && len(newTraits) == len(g.Traits) && childNodesMap != nil && fresh(childNodesMap) && len(newGenes) == 0 && fresh(newGenes) && fresh(newNodes)
 //@     invariant forall i :: 0 <= i && i < len(newTraits) ==> newTraits[i] != nil && newTraits[i].Id == g.Traits[i].Id && (forall k :: 0 <= k && k < len(g.Traits[i].Params) ==> newTraits[i].Params[k] == (g.Traits[i].Params[k] + og.Traits[i].Params[k]) / 2.0)
 //@     invariant nonNilNodes(newNodes) && sortedNodesLE(newNodes)
 //@     invariant forall b :: wasAllocated(b) ==> Mem[*network.NNode][b] == old(Mem[*network.NNode][b])
 //@   loop 2:
-//@     invariant 0 <= i1 && i1 <= size1 && 0 <= i2 && i2 <= size2 && size1 == len(g.Genes) && size2 == len(og.Genes) && len(newTraits) == len(g.Traits) && childNodesMap != nil && fresh(childNodesMap)
-//@     invariant forall i :: 0 <= i && i < len(newTraits) ==> newTraits[i] != nil && newTraits[i].Id == g.Traits[i].Id && (forall k :: 0 <= k && k < len(g.Traits[i].Params) ==> newTraits[i].Params[k] == (g.Traits[i].Params[k] + og.Traits[i].Params[k]) / 2.0)
-//@     invariant nonNilNodes(newNodes) && sortedNodesLE(newNodes) && fresh(newNodes) && fresh(newGenes)
-//@     invariant forall k :: 0 <= k && k < len(newGenes) ==> newGenes[k] != nil && fresh(newGenes[k]) && newGenes[k].Link != nil && fresh(newGenes[k].Link) && newGenes[k].Link.InNode != nil && newGenes[k].Link.OutNode != nil
-//@     invariant forall k :: 0 <= k && k < len(newGenes) ==> (sel(gSrc, k) >= 0 ==> sel(gSrc, k) < i1) && (sel(gSrc, k) < 0 ==> 0 - sel(gSrc, k) <= i2)
-//@     invariant forall k :: 0 <= k && k < len(newGenes) && sel(gSrc, k) >= 0 ==> fromGene(newGenes[k], g.Genes[sel(gSrc, k)])
-//@     invariant forall k :: 0 <= k && k < len(newGenes) && sel(gSrc, k) < 0 ==> fromGene(newGenes[k], og.Genes[0 - sel(gSrc, k) - 1])
-//@     invariant sortedLT(newGenes)
-//@     invariant forall k :: 0 <= k && k < len(newGenes) ==> (i1 < size1 ==> newGenes[k].InnovationNum < g.Genes[i1].InnovationNum) && (i2 < size2 ==> newGenes[k].InnovationNum < og.Genes[i2].InnovationNum)
-//@     invariant forall x *Gene :: wasAllocated(x) ==> x.IsEnabled == old(x.IsEnabled)
-//@     invariant forall b :: wasAllocated(b) ==> Mem[*network.NNode][b] == old(Mem[*network.NNode][b])
-//@     invariant forall b :: wasAllocated(b) ==> Mem[*Gene][b] == old(Mem[*Gene][b])
+//@     invariant [bounds] 0 <= i1 && i1 <= size1 && 0 <= i2 && i2 <= size2 && size1 == len(g.Genes) && size2 == len(og.Genes) && len(newTraits) == len(g.Traits) && childNodesMap != nil && fresh(childNodesMap)
+//@     invariant [traits] forall i :: 0 <= i && i < len(newTraits) ==> newTraits[i] != nil && newTraits[i].Id == g.Traits[i].Id && (forall k :: 0 <= k && k < len(g.Traits[i].Params) ==> newTraits[i].Params[k] == (g.Traits[i].Params[k] + og.Traits[i].Params[k]) / 2.0)
+//@     invariant [nodes] nonNilNodes(newNodes) && sortedNodesLE(newNodes) && fresh(newNodes) && fresh(newGenes)
+//@     invariant [genesWF] forall k :: 0 <= k && k < len(newGenes) ==> newGenes[k] != nil && fresh(newGenes[k]) && newGenes[k].Link != nil && fresh(newGenes[k].Link) && newGenes[k].Link.InNode != nil && newGenes[k].Link.OutNode != nil
+//@     invariant [srcRange] forall k :: 0 <= k && k < len(newGenes) ==> (sel(gSrc, k) >= 0 ==> sel(gSrc, k) < i1) && (sel(gSrc, k) < 0 ==> 0 - sel(gSrc, k) <= i2)
+//@     invariant [fromA] forall k :: 0 <= k && k < len(newGenes) && sel(gSrc, k) >= 0 ==> fromGene(newGenes[k], g.Genes[sel(gSrc, k)])
+//@     invariant [fromB] forall k :: 0 <= k && k < len(newGenes) && sel(gSrc, k) < 0 ==> fromGene(newGenes[k], og.Genes[0 - sel(gSrc, k) - 1])
+//@     invariant [sorted] sortedLT(newGenes)
+//@     invariant [better] p1better == better1(fitness1, fitness2, g, og)
+//@     invariant [kidA.fit] forall a :: 0 <= a && a < i1 && p1better ==> 0 <= sel(gKidA, a) && sel(gKidA, a) < len(newGenes) && newGenes[sel(gKidA, a)].InnovationNum == g.Genes[a].InnovationNum
+//@     invariant [kidB.fit] forall b :: 0 <= b && b < i2 && !p1better ==> 0 <= sel(gKidB, b) && sel(gKidB, b) < len(newGenes) && newGenes[sel(gKidB, b)].InnovationNum == og.Genes[b].InnovationNum
+//@     invariant [kidA.both] forall a, b :: 0 <= a && a < i1 && 0 <= b && b < size2 && og.Genes[b].InnovationNum == g.Genes[a].InnovationNum ==> 0 <= sel(gKidA, a) && sel(gKidA, a) < len(newGenes) && newGenes[sel(gKidA, a)].InnovationNum == g.Genes[a].InnovationNum
+//@     invariant [mergeA] forall a :: 0 <= a && a < i1 ==> (i2 < size2 ==> g.Genes[a].InnovationNum < og.Genes[i2].InnovationNum)
+//@     invariant [mergeB] forall b :: 0 <= b && b < i2 ==> (i1 < size1 ==> og.Genes[b].InnovationNum < g.Genes[i1].InnovationNum)
+//@     invariant [othRangeA] forall k :: 0 <= k && k < len(newGenes) && sel(gSrc, k) >= 0 && sel(gOth, k) >= 0 ==> sel(gOth, k) < i2 && og.Genes[sel(gOth, k)].InnovationNum == newGenes[k].InnovationNum
+//@     invariant [othRangeB] forall k :: 0 <= k && k < len(newGenes) && sel(gSrc, k) < 0 && sel(gOth, k) >= 0 ==> sel(gOth, k) < i1 && g.Genes[sel(gOth, k)].InnovationNum == newGenes[k].InnovationNum
+//@     invariant [othNoneA] forall k, b :: 0 <= k && k < len(newGenes) && sel(gSrc, k) >= 0 && sel(gOth, k) < 0 && 0 <= b && b < size2 ==> og.Genes[b].InnovationNum != newGenes[k].InnovationNum
+//@     invariant [othNoneB] forall k, a :: 0 <= k && k < len(newGenes) && sel(gSrc, k) < 0 && sel(gOth, k) < 0 && 0 <= a && a < size1 ==> g.Genes[a].InnovationNum != newGenes[k].InnovationNum
+//@     invariant [onlyFitter] forall k :: 0 <= k && k < len(newGenes) ==> (sel(gSrc, k) >= 0 && !p1better ==> sel(gOth, k) >= 0) && (sel(gSrc, k) < 0 && p1better ==> sel(gOth, k) >= 0)
+//@     invariant [enSingleA] forall k :: 0 <= k && k < len(newGenes) && sel(gOth, k) < 0 && sel(gSrc, k) >= 0 ==> newGenes[k].IsEnabled == g.Genes[sel(gSrc, k)].IsEnabled
+//@     invariant [enSingleB] forall k :: 0 <= k && k < len(newGenes) && sel(gOth, k) < 0 && sel(gSrc, k) < 0 ==> newGenes[k].IsEnabled == og.Genes[0 - sel(gSrc, k) - 1].IsEnabled
+//@     invariant [enBothA] forall k :: 0 <= k && k < len(newGenes) && sel(gOth, k) >= 0 && sel(gSrc, k) >= 0 && g.Genes[sel(gSrc, k)].IsEnabled && og.Genes[sel(gOth, k)].IsEnabled ==> newGenes[k].IsEnabled
+//@     invariant [enBothB] forall k :: 0 <= k && k < len(newGenes) && sel(gOth, k) >= 0 && sel(gSrc, k) < 0 && og.Genes[0 - sel(gSrc, k) - 1].IsEnabled && g.Genes[sel(gOth, k)].IsEnabled ==> newGenes[k].IsEnabled
+//@     invariant [belowNext] forall k :: 0 <= k && k < len(newGenes) ==> (i1 < size1 ==> newGenes[k].InnovationNum < g.Genes[i1].InnovationNum) && (i2 < size2 ==> newGenes[k].InnovationNum < og.Genes[i2].InnovationNum)
+//@     invariant [enabledFrame] forall x *Gene :: wasAllocated(x) ==> x.IsEnabled == old(x.IsEnabled)
+//@     invariant [nodeMemFrame] forall b :: wasAllocated(b) ==> Mem[*network.NNode][b] == old(Mem[*network.NNode][b])
+//@     invariant [geneMemFrame] forall b :: wasAllocated(b) ==> Mem[*Gene][b] == old(Mem[*Gene][b])
 //@   loop 3:
-//@     invariant -1 <= #idx
-//@     invariant [chosen] chosenGene != nil && ((i1 > 0 && chosenGene == g.Genes[i1-1]) || (i2 > 0 && chosenGene == og.Genes[i2-1]))
+//@     invariant -1 <= #idx && !skip
+//@     leave [noConflict] !skip
+//@     invariant [chosen] chosenGene != nil && chosenGene.Link != nil && chosenGene.Link.InNode != nil && chosenGene.Link.OutNode != nil && ((i1 > 0 && chosenGene == g.Genes[i1-1]) || (i2 > 0 && chosenGene == og.Genes[i2-1]))
 //@     invariant [chosenBelowNext] (i1 < size1 ==> chosenGene.InnovationNum < g.Genes[i1].InnovationNum) && (i2 < size2 ==> chosenGene.InnovationNum < og.Genes[i2].InnovationNum)
 //@     invariant [childBelowChosen] forall k :: 0 <= k && k < len(newGenes) ==> newGenes[k].InnovationNum < chosenGene.InnovationNum
 //@   loop 4:
 //@     invariant -1 <= #idx && (newInNode != nil ==> newInNode.Id == inNode.Id)
-//@     invariant [chosen] chosenGene != nil && ((i1 > 0 && chosenGene == g.Genes[i1-1]) || (i2 > 0 && chosenGene == og.Genes[i2-1]))
-//@     invariant [chosenBelowNext] (i1 < size1 ==> chosenGene.InnovationNum < g.Genes[i1].InnovationNum) && (i2 < size2 ==> chosenGene.InnovationNum < og.Genes[i2].InnovationNum)
-//@     invariant [childBelowChosen] forall k :: 0 <= k && k < len(newGenes) ==> newGenes[k].InnovationNum < chosenGene.InnovationNum
+//@     invariant [chosen] chosenGene != nil && chosenGene.Link != nil && chosenGene.Link.InNode != nil && chosenGene.Link.OutNode != nil && ((i1 > 0 && chosenGene == g.Genes[i1-1]) || (i2 > 0 && chosenGene == og.Genes[i2-1]))
 //@   loop 5:
 //@     invariant -1 <= #idx && (newOutNode != nil ==> newOutNode.Id == outNode.Id)
-//@     invariant [chosen] chosenGene != nil && ((i1 > 0 && chosenGene == g.Genes[i1-1]) || (i2 > 0 && chosenGene == og.Genes[i2-1]))
-//@     invariant [chosenBelowNext] (i1 < size1 ==> chosenGene.InnovationNum < g.Genes[i1].InnovationNum) && (i2 < size2 ==> chosenGene.InnovationNum < og.Genes[i2].InnovationNum)
-//@     invariant [childBelowChosen] forall k :: 0 <= k && k < len(newGenes) ==> newGenes[k].InnovationNum < chosenGene.InnovationNum
+//@     invariant [chosen] chosenGene != nil && chosenGene.Link != nil && chosenGene.Link.InNode != nil && chosenGene.Link.OutNode != nil && ((i1 > 0 && chosenGene == g.Genes[i1-1]) || (i2 > 0 && chosenGene == og.Genes[i2-1]))
